@@ -161,6 +161,21 @@ CHECKS = {
             "Decoder: vlib/vterm.py. PIL codecs and resampling are a trusted base. JPEG payloads judged on format, mode "
             "and dimensions only. WHOLE may transmit either the render resolution or the source resolution.",
             "DESIGN.md 3/C03"),
+    "C11": ("model_checking",
+            "explicit-state BFS over operation histories x exhaustive single-fault enumeration at every library-to-PIL call",
+            "Model checking with fault enumeration: explicit-state BFS over histories of {format, str, still / animated / "
+            "interrupted / invalid draw, iterator create/next/seek/close/drop, image close/seek/n_frames, fixed/dynamic "
+            "size, terminal resize} on the real classes, over path / PIL / in-memory / loopback-URL sources (GIF, APNG, "
+            "PNG) x Block/Kitty/iTerm2(wezterm, konsole) x repeat {1,2,-1} x format specs x cached {False,True,<n,>=n}; "
+            "exactly one PIL failure is injected at every index of every operation. Depths 3-5 with faults, to the "
+            "fixpoint (depth <= 14) without, two iterators to depth 6, plus a 182-case constructor product (404/500/"
+            "non-image/empty/refused URL, bad files, bad kwargs, unsupported style). Frames are compared with format() "
+            "of an independent twin, tell() with a reference model, resources with explicitly tracked opens "
+            "(harness-held references), /proc/self/fd, the library temp dir, close() calls on the caller's image and "
+            "the size setting. State merging validated by plain enumeration to depth 3.",
+            "Bounded by depth except the fixpoint configurations; one fault per history at library-to-PIL call "
+            "boundaries; PIL and requests (against a loopback server) trusted.",
+            "DESIGN.md 3/C11, B.5"),
 }
 
 PENDING_REASON = "check not built yet in this round (design in DESIGN.md section 3); not claimed"
